@@ -33,6 +33,7 @@ pub fn blocks(thorough: bool) -> Vec<Block> {
         let grid_long: Vec<(u32, u32)> = grid22.iter().copied().chain([(1, 4), (2, 3)]).collect();
         b.push(Block::new(u_rep_single(&["a", "b"], 14), thr(&[0], &grid_long), "r x 8 thresholds (every single string to length 14: overlapping and nested repeats with tails)"));
         b.push(Block::new(u_rep_single(&["a", "b"], 10), thr(&[W, I | X], &grid22), "r x {w, i+x} x 6 thresholds"));
+        b.push(Block::new(u_rep_single(&["a", "B", "1", "-"], 5), thr(&[I | ND, I | NW, I | NS | D, G | D, E | I], &[(1, 1)]), "r x {i+D, i+W, i+S+d, g+d, e+i} (three settings together)"));
         b.push(Block::new(u_rep_single(&["a", "b", "c"], 6), thr(&[0], &grid22), "r x 6 thresholds"));
         b.push(Block::new(Universe::new("U_pairs{a,b}^<=5", &["a", "b"], 5, 2, false), thr(&[0], &[(1, 1), (2, 1), (1, 2)]), "r x {(1,1),(2,1),(1,2)} (a test case and the same plus a repeated block: optional grouped repetitions)"));
         b.push(Block::new(Universe::new("U_pairs{e9,1f4a9,a}^<=4", &["\u{e9}", "\u{1f4a9}", "a"], 4, 2, false), thr(&[E, E | X], &[(1, 1)]), "r x {e, e+x}"));
